@@ -10,10 +10,11 @@ From Hive.Proofs Require Import SimFacts Reach Clock Trip.
 Section VF.
 Variable env : Env.
 Variable d : Z.      (* the step length *)
+Variable allow : bool.   (* whether driver-state writes are among the writes considered (they are made by driver updates only) *)
 
 Inductive VRel : Vehicle -> Vehicle -> Prop :=
 | VR_state v st : VRel v (v <| v_state := st |>)
-| VR_driver v dr : VRel v (v <| v_driver := dr |>)
+| VR_driver v dr : allow = true -> VRel v (v <| v_driver := dr |>)
 | VR_pay v q : VRel v (veh_receive_payment v q)
 | VR_charge v m c price : VRel v (veh_send_payment (fst (mech_add_energy m v c d)) price)
 | VR_idle v m st : VRel v ((mech_idle m v d) <| v_state := st |>)
@@ -238,16 +239,16 @@ Proof. unfold step_vehicle. destruct (vs_update env (fst vs) (snd vs) s) eqn:E; 
 Lemma fold_vstep {X} (f : Sim -> X -> Sim) (l : list X) : (forall s x, vstep s (f s x)) -> forall s, vstep s (fold_left f l s).
 Proof. intro Hf. induction l as [|x l IH]; intro s; cbn; [apply vstep_refl|]. eapply vstep_trans; [apply Hf|apply IH]. Qed.
 
-Lemma driver_write_vstep s e vid dr s' cur : find vid (vehicles s) = Some cur ->
+Lemma driver_write_vstep s e vid dr s' cur : allow = true -> find vid (vehicles s) = Some cur ->
   modify_vehicle env (emit s e) (cur <| v_driver := dr |>) = Ok s' -> vstep s s'.
 Proof.
-  intros F M D K. assert (Hid : v_id cur = vid) by (apply K; exact F).
+  intros Al F M D K. assert (Hid : v_id cur = vid) by (apply K; exact F).
   eapply vstep_trans; [apply vstep_emit| |exact D|exact K].
-  eapply (vstep_modv _ _ _ cur M); [cbn; rewrite Hid; exact F|constructor].
+  eapply (vstep_modv _ _ _ cur M); [cbn; rewrite Hid; exact F|constructor; exact Al].
 Qed.
-Lemma driver_update_vstep rt s v s' : driver_update env rt s v = Ok s' -> vstep s s'.
+Lemma driver_update_vstep rt s v s' : allow = true -> driver_update env rt s v = Ok s' -> vstep s s'.
 Proof.
-  unfold driver_update, apply_new_driver_state. intro H. destruct (v_driver v).
+  unfold driver_update, apply_new_driver_state. intros Al H. destruct (v_driver v).
   - inv H. apply vstep_refl.
   - destruct (sched_active env sched (sim_time s)) as [[|]|]; try (inv H; apply vstep_refl).
     destruct (find (v_id v) (vehicles s)) as [cur|] eqn:F; [|discriminate]. cbn in H. rewrite F in H.
@@ -257,9 +258,9 @@ Proof.
     cbn in H. rewrite F in H. eapply driver_write_vstep; eauto.
 Qed.
 
-Theorem step_op_vstep s o : vstep s (step_op env s o).
+Theorem step_op_vstep s o : (allow = true \/ forall rt, o <> OpDrivers rt) -> vstep s (step_op env s o).
 Proof.
-  destruct o; cbn [step_op].
+  intro Al. destruct o; cbn [step_op].
   - unfold apply_instructions. apply fold_vstep. intros s0 [i r]. unfold apply_phase2.
     destruct (transition env s0 (fst r) (snd r)) eqn:E; try apply vstep_refl.
     eapply vstep_trans; [eapply transition_vstep; eauto|]. apply vstep_same; reflexivity.
@@ -276,7 +277,7 @@ Proof.
     + unfold add_request_new in E. destruct (negb _); [discriminate|]. inv E. apply vstep_same; reflexivity.
   - apply fold_vstep. intros s0 u. unfold update_station_prices. destruct (find (fst u) (stations s0)); [|apply vstep_refl].
     destruct (modify_station env s0 _) eqn:E; try apply vstep_refl. eapply vstep_mods; eauto.
-  - unfold perform_driver_state_updates.
+  - destruct Al as [Al|Al]; [|exfalso; eapply Al; reflexivity]. unfold perform_driver_state_updates.
     assert (G : forall l acc, vstep s acc -> vstep s (fold_left (fun acc v => match driver_update env range_target acc v with Ok s' => s' | _ => s end) l acc)).
     { induction l as [|v l IH]; intros acc Hacc; cbn [fold_left]; [exact Hacc|]. apply IH.
       destruct (driver_update env range_target acc v) eqn:E; try apply vstep_refl. eapply vstep_trans; [exact Hacc|]. eapply driver_update_vstep; eauto. }
@@ -286,16 +287,17 @@ Proof.
 Qed.
 
 (* every finite history of operations, any controller *)
-Theorem ops_vstep ops : forall s, vstep s (fold_left (step_op env) ops s).
-Proof. induction ops as [|o ops IH]; intro s; cbn [fold_left]; [apply vstep_refl|]. eapply vstep_trans; [apply step_op_vstep|apply IH]. Qed.
+Theorem ops_vstep ops : allow = true -> forall s, vstep s (fold_left (step_op env) ops s).
+Proof. intro Al. induction ops as [|o ops IH]; intro s; cbn [fold_left]; [apply vstep_refl|]. eapply vstep_trans; [apply step_op_vstep; auto|apply IH]. Qed.
 End VF.
 
 (* ---------- per-vehicle invariants over whole histories ---------- *)
 Section Inv.
 Local Open Scope Q_scope.
 Variable d : Z.
+Variable allow : bool.
 (* what no write ever changes *)
-Lemma VRel_static v v' : VRel d v v' -> v_id v' = v_id v /\ v_mem v' = v_mem v /\ v_mech v' = v_mech v.
+Lemma VRel_static v v' : VRel d allow v v' -> v_id v' = v_id v /\ v_mem v' = v_mem v /\ v_mech v' = v_mech v.
 Proof.
   destruct 1; cbn; auto.
   - unfold veh_send_payment. cbn. unfold mech_add_energy. destruct (m_kind m).
@@ -309,7 +311,7 @@ Qed.
 (* the energy balance: level - gained + expended never changes (C04: "at all times equals its initial energy plus
    everything it has gained minus everything it has expended") — unconditionally, for both powertrains *)
 Definition balance (v : Vehicle) : Q := v_energy v - v_gained v + v_expended v.
-Lemma VRel_balance v v' : VRel d v v' -> balance v' == balance v.
+Lemma VRel_balance v v' : VRel d allow v v' -> balance v' == balance v.
 Proof.
   unfold balance. destruct 1; cbn; try lra.
   - unfold mech_add_energy. destruct (m_kind m).
@@ -321,11 +323,24 @@ Proof.
   - unfold mech_idle. destruct (m_kind m); [unfold bev_idle|unfold ice_idle]; unfold veh_modify_energy, veh_tick_energy_expended; cbn; lra.
   - unfold mech_consume. destruct (m_kind m); [unfold bev_consume_energy|unfold ice_consume_energy]; unfold veh_modify_energy, veh_tick_energy_expended, veh_tick_distance; cbn; lra.
 Qed.
-Lemma VStar_static v v' : VStar d v v' -> v_id v' = v_id v /\ v_mem v' = v_mem v /\ v_mech v' = v_mech v.
+Lemma VStar_static v v' : VStar d allow v v' -> v_id v' = v_id v /\ v_mem v' = v_mem v /\ v_mech v' = v_mech v.
 Proof. induction 1; [auto|]. apply VRel_static in H. intuition congruence. Qed.
-Lemma VStar_balance v v' : VStar d v v' -> balance v' == balance v.
+Lemma VStar_balance v v' : VStar d allow v v' -> balance v' == balance v.
 Proof. induction 1; [reflexivity|]. apply VRel_balance in H. rewrite IHVStar. exact H. Qed.
 End Inv.
+(* without driver writes the driver state is untouched *)
+Lemma VRel_driver d v v' : VRel d false v v' -> v_driver v' = v_driver v.
+Proof.
+  destruct 1; cbn; auto; try discriminate.
+  - unfold mech_add_energy. destruct (m_kind m).
+    + unfold bev_add_energy. destruct (negb _); [auto|]. destruct (Qltb _ _); [cbn; auto|]. destruct (powercurve_charge _ _ _ _ _). cbn. auto.
+    + unfold ice_add_energy. destruct (negb _); cbn; auto.
+  - unfold mech_idle. destruct (m_kind m); cbn; auto.
+  - unfold mech_idle. destruct (m_kind m); cbn; auto.
+  - unfold mech_consume. destruct (m_kind m); cbn; auto.
+Qed.
+Lemma VStar_driver d v v' : VStar d false v v' -> v_driver v' = v_driver v.
+Proof. induction 1; [auto|]. apply VRel_driver in H. congruence. Qed.
 
 (* ---------- corollaries over whole histories, any controller ---------- *)
 Section Hist.
@@ -335,8 +350,8 @@ Theorem history_vehicle_frame ops s0 : vkeys s0 -> forall vid v0, find vid (vehi
   exists v, find vid (vehicles (fold_left (step_op env) ops s0)) = Some v /\
             v_id v = v_id v0 /\ v_mem v = v_mem v0 /\ v_mech v = v_mech v0 /\ balance v == balance v0.
 Proof.
-  intros K vid v0 F. destruct (ops_vstep env (dt s0) ops s0 eq_refl K) as (_ & _ & V).
+  intros K vid v0 F. destruct (ops_vstep env (dt s0) true ops eq_refl s0 eq_refl K) as (_ & _ & V).
   destruct (V vid v0 F) as (v & Fv & S). exists v. split; [exact Fv|].
-  destruct (VStar_static _ _ _ S) as (A & B & C). repeat split; auto. apply (VStar_balance _ _ _ S).
+  destruct (VStar_static _ _ _ _ S) as (A & B & C). repeat split; auto. apply (VStar_balance _ _ _ _ S).
 Qed.
 End Hist.
